@@ -5,6 +5,7 @@
 //!   tzp.rule x<bytes> <0|1>      -> `err` | canonical rule dump
 //!   tzp.enc <ver> x<footer> <block> <block> -> x<bytes>   (the harness's writer vs Spec.encodeTzif)
 //!   tzp.render <rule fields…>    -> x<bytes>              (the harness's canonical renderer vs Spec.renderTz)
+//!   tzp.layout x<bytes>          -> the block lengths the header counts announce and the footer length (accepted files)
 //!   tzp.at  <dump> t1,t2,…       -> o<off>:<dst> | err | panic   (three-valued lookup by instant on an accepted zone)
 //!   tzp.loc <dump> ℓ1:y1,…       -> s<off> | a<o1>/<o2> | n | err | panic   (… by wall clock)
 //! Direct oracles (`c.fail`): no panic in the readers or in lookups on accepted zones; a file written
@@ -649,6 +650,36 @@ fn probe(c: &mut Ctx, z: &vt::Zone, times: &[i64], label: &str, bytes: &[u8]) {
     }
 }
 
+/// header-plus-data length the six counts of the header at the start of `b` announce (`ts`-byte times)
+fn announced(b: &[u8], ts: u128) -> u128 {
+    let cnt = |k: usize| -> u128 { b.iter().skip(20 + 4 * k).take(4).fold(0u128, |a, x| a * 256 + *x as u128) };
+    44 + cnt(3) * ts + cnt(3) + cnt(4) * 6 + cnt(5) + cnt(2) * (ts + 4) + cnt(1) + cnt(0)
+}
+/// counts that disagree with the data: an ACCEPTED file must have exactly the layout its header
+/// counts announce (v1: nothing else; v2+: second announced block, then a newline-framed footer);
+/// the specification's `announcedLen` / `footerOf` must say the same (`tzp.layout`)
+fn layout_oracle(c: &mut Ctx, bytes: &[u8], label: &str) {
+    let len = bytes.len() as u128;
+    let a4 = announced(bytes, 4);
+    if bytes[4] == 0 {
+        if len != a4 {
+            c.fail("accepted v1 file whose length differs from what its counts announce", &format!("{} announced={} file={}", label, a4, hex(bytes)));
+        }
+        c.op(&format!("tzp.layout {}", hex(bytes)), &format!("{} - 0", a4));
+        return;
+    }
+    if a4 > len {
+        c.fail("accepted file shorter than its first announced block", &format!("{} announced={} file={}", label, a4, hex(bytes)));
+        return;
+    }
+    let a8 = announced(&bytes[a4 as usize..], 8);
+    if a4 + a8 >= len || bytes[(a4 + a8) as usize] != b'\n' || bytes[bytes.len() - 1] != b'\n' {
+        c.fail("accepted v2+ file without the announced blocks followed by a newline-framed footer", &format!("{} announced={}+{} file={}", label, a4, a8, hex(bytes)));
+        return;
+    }
+    c.op(&format!("tzp.layout {}", hex(bytes)), &format!("{} {} {}", a4, a8, len - a4 - a8));
+}
+
 /// run the reader on `bytes`: emits the correspondence op, guards against panics, probes accepted
 /// zones; returns the dump if accepted
 fn read_tzif(c: &mut Ctx, bytes: &[u8], label: &str, times: &[i64]) -> Option<String> {
@@ -669,6 +700,7 @@ fn read_tzif(c: &mut Ctx, bytes: &[u8], label: &str, times: &[i64]) -> Option<St
             c.count(&format!("{}:ok", label));
             let d = z.dump();
             c.op(&format!("tzp.tzif {}", hex(bytes)), &d);
+            layout_oracle(c, bytes, label);
             let own: Vec<i64>;
             let ts = if times.is_empty() {
                 own = dump_times(&d);
